@@ -353,7 +353,7 @@ class EngineC08(HistEngine):
                                     diff = ("local", k)
                                     break
                     if diff is not None:
-                        culprit = self.find_clobber(flat, scoped, c["text"]) if flat is not None else ("error", "", "")
+                        culprit = self.find_clobber(flat, scoped, c["text"])
                         key = f"{cfg}:clobber:{culprit[0]}"
                         V.append(Violation("C08", "isolation", "flat-vs-scoped", key,
                                            {"caller": c["text"], "first_difference": list(diff), "clobbered": culprit[1], "written_by": culprit[2],
@@ -450,7 +450,13 @@ class EngineC08(HistEngine):
     def find_clobber(flat, scoped, source):
         """Variables that are live in one scope and were written by a (nested) callee in the flat run:
         (kinds, names, writers).  kind 'temp' = compiler generated name, 'named-local' = a name from some source text."""
-        cand = sorted(n for n in flat["callee_writes"] if n in scoped["locals"] and n != "ret_val")
+        if flat is not None:
+            cand = sorted(n for n in flat["callee_writes"] if n in scoped["locals"] and n != "ret_val")
+        else:
+            # the flat run did not even finish (e.g. a clobbered variable changed its width): names that the isolated run
+            # keeps both at the top level and inside a callee scope
+            callee_names = {n.split(":", 1)[1] for n in scoped["all_locals"] if ":" in n}
+            cand = sorted(n for n in callee_names if n in scoped["locals"] and n != "ret_val")
         if not cand:
             # collisions between two call scopes: the same raw name owned by more than one scope in the scoped run
             owners: dict[str, set] = {}
@@ -464,7 +470,8 @@ class EngineC08(HistEngine):
             kinds.add("temp" if re.match(r"^h_tmp", k) else "named-local")
         if not cand:
             return ("unknown", "", "")
-        return ("+".join(sorted(kinds)), ",".join(cand), ",".join(flat["callee_writes"].get(k, "") for k in cand))
+        writers = flat["callee_writes"] if flat is not None else {}
+        return ("+".join(sorted(kinds)), ",".join(cand), ",".join(writers.get(k, "") for k in cand))
 
     def fixed_reference(self, text, a, b, st):
         rs, rt = a & 0xFFFFFFFF, b & 0xFFFFFFFF
